@@ -546,6 +546,16 @@ def run(ck):
             c1, c2 = l1[0], l2[0]
             detail["observation_a"] = {"context": c1[0], "after": [r.get("tag") for r in scripts[c1[0]][:c1[1]]][-8:], "value": list(k1)[:2]}
             detail["observation_b"] = {"context": c2[0], "after": [r.get("tag") for r in scripts[c2[0]][:c2[1]]][-8:], "value": list(k2)[:2]}
+            # a self-contained replay: does the prior program that immediately precedes the observation suffice?
+            for key, (cx, rid) in (("observation_a", c1), ("observation_b", c2)):
+                if rid > 0 and scripts[cx][rid - 1].get("op") == "hist":
+                    prior = scripts[cx][rid - 1]
+                    detail[key]["prior_program"] = prior["src"]
+                    alone, _ = run_script(exe, [dict(scripts[cx][rid])], 300)
+                    after, _ = run_script(exe, [dict(prior), dict(scripts[cx][rid])], 300)
+                    if alone and len(after) == 2:
+                        detail[key]["reproduced_in_a_fresh_process_with_only_the_prior_program"] = \
+                            canon(art, alone[0].get(art)) != canon(art, after[1].get(art))
             texts = []
             for (cx, rid) in (c1, c2):
                 reqs = [dict(r) for r in scripts[cx][:rid + 1]]
@@ -561,7 +571,8 @@ def run(ck):
                 detail["first_difference"] = "the difference depends on the hash seed of the process and did not recur in the re-run; digests: %s vs %s" % (k1, k2)
         viol.append(("the same source yields different %s in two compilations" % art,
                      {"source": s["src"], "path": s["path"], "sched": s["sched"], "name": s["name"], **detail,
-                      "how": "./check C15 --replay <this file>   (or: determinism_run, request {\"op\":\"obs\",\"src\":..,\"full\":true} in several processes)"}, False))
+                      "how": "./check C15 --replay <this file>   (or: feed determinism_run the two requests {\"op\":\"hist\",\"src\":<prior_program>} and "
+                             "{\"op\":\"obs\",\"src\":<source>,\"full\":true} in one process, and the second one alone in another process)"}, False))
 
     ck.coverage["evaluations"] = n_obs
     ck.coverage["distinct_nontrivial"] = nontrivial
